@@ -147,12 +147,12 @@ def _metadata_truth(script, vals, how, where, in_body, extractor, class_level, t
 
 _o = sc.op_of
 _QOPS = [_o('A', 1), _o('O', 1)]
-_TOPS = [_o('A', 1), _o('H'), _o('N'), _o('O', 1), _o('U'), _o('T')]
+_TOPS = [_o('A', 1), _o('H'), _o('O', 1), _o('U')]
 _W = {'first': _o('A', 1), 'how': 2}
 _QA = {'L': 2, 'OPS': _QOPS, 'EXTRACTORS': [0, 1, 2, 3, 5], 'CALLERS': [0], 'DISABLE': [-1]}
 _QB = {'L': 2, 'OPS': _QOPS, 'EXTRACTORS': [0], 'CALLERS': [0, 1, 2], 'DISABLE': [-1, 0, 1], 'CLS': [False]}
-_TA = {'L': 3, 'OPS': _TOPS, 'EXTRACTORS': [0, 1, 2, 3, 4, 5, 6], 'CALLERS': [0, 1], 'DISABLE': [-1, 1]}
-_TB = {'L': 3, 'OPS': _TOPS, 'EXTRACTORS': [0], 'CALLERS': [0, 1, 2], 'DISABLE': [-1, 0, 1, 2], 'CLS': [False, True]}
+_TA = {'L': 3, 'OPS': _TOPS, 'EXTRACTORS': [0, 1, 2, 3, 4, 5, 6], 'CALLERS': [0], 'DISABLE': [-1]}
+_TB = {'L': 2, 'OPS': _TOPS, 'EXTRACTORS': [0], 'CALLERS': [0, 1, 2], 'DISABLE': [-1, 0, 1], 'CLS': [False, True]}
 CONDITIONS = [
     {'fn': 'metadata_truth', 'nontrivial': 'interrupted-midway',
      'what': 'every metadata key vs the documented meaning, for every termination mode/point, extractor behaviour and '
